@@ -168,4 +168,106 @@ theorem class_wrapper_instances {α : Type} (rt : Obj → Obj) (hf : Faithful rt
 example (c : Bool) : Regular ((fun (_ : Unit) => Val.raw ⟨c, fun _ => none, id, 0⟩) ()) ∧
     c = isCallable ((fun (_ : Unit) => Val.raw ⟨c, fun _ => none, id, 0⟩) ()) := ⟨trivial, rfl⟩
 
+/-! ## histories on one wrapper object: every pickling ships the state the object has *then*
+
+A history is any list of events on one live wrapper `w` (any stack, any flags): the wrapped object
+changes state (`mutate`, through the wrapper or directly — the wrapper holds a reference), the live
+wrapper is pickled (`pickle none`), a received copy is pickled again (`pickle (some j)`), a received
+copy changes state (`mutateCopy`).  `pickleNow` is the code's `__reduce__` run at the moment of the
+event followed by the rebuild on the receiving side. -/
+
+/-- `pickle.dumps` of a wrapper at any moment is `__reduce__` applied to the fields as they are at that
+moment, and the result is the round trip of the wrapper *as it is now* (nothing else is consulted). -/
+theorem reduce_reads_current (rt : Obj → Obj) (k : WKind) (keep : Bool) (v : Val) (f : Obj → Obj) :
+    pickleNow rt (mapCore f (.wrap k keep v)) = rebuild (trip rt) (reduce keep (mapCore f v)) ∧
+    pickleNow rt (mapCore f (.wrap k keep v)) = trip rt (.wrap k keep (mapCore f v)) :=
+  ⟨rfl, pickleNow_eq_trip rt _⟩
+
+/-- picklings and whatever happens to received copies never change the live wrapper; after any
+history it is the initial stack around the object in its current state -/
+theorem history_live (rt : Obj → Obj) (w : Val) (g : List Val) (ops : List HOp) :
+    (hrun rt ⟨w, g⟩ ops).live = mapCore (liveMut ops) w :=
+  hrun_live rt ⟨w, g⟩ ops
+
+/-- … and forwards to that current state: callable iff, same call results, same attribute reads -/
+theorem history_live_forwards (rt : Obj → Obj) (w : Val) (hw : Regular w) (g : List Val) (ops : List HOp)
+    (hs : StableOps ops) :
+    SameBeh (hrun rt ⟨w, g⟩ ops).live (.raw (liveMut ops (core w))) := by
+  rw [history_live]
+  have h := sameBeh_core _ (regular_mapCore _ (liveMut_callStable ops hs) w hw)
+  rwa [core_mapCore] at h
+
+/-- `history_copy` — for EVERY history `pre`, the copy received from a pickling of the live wrapper
+after `pre` (it lands at index "number of copies received so far") is the round trip of the wrapper
+with the object in the state it has **at the time of that pickling** (`liveMut pre`), and it stays
+that for every continuation `post` that does not change this very copy: later state changes of the
+original, further picklings and changes of other copies do not reach it. -/
+theorem history_copy (rt : Obj → Obj) (w : Val) (pre post : List HOp)
+    (hpost : ∀ j f, HOp.mutateCopy j f ∈ post → j ≠ (hrun rt ⟨w, []⟩ pre).got.length) :
+    (hrun rt ⟨w, []⟩ (pre ++ .pickle none :: post)).got[(hrun rt ⟨w, []⟩ pre).got.length]? =
+      some (trip rt (mapCore (liveMut pre) w)) := by
+  rw [hrun_append, copy_general rt _ none _ post rfl hpost, hrun_live]
+
+/-- the same for a received copy that is pickled again (sent on, or sent back): what arrives is the
+round trip of that copy as it is at that moment -/
+theorem history_copy_of_copy (rt : Obj → Obj) (w : Val) (pre post : List HOp) (j : Nat) (c : Val)
+    (hc : (hrun rt ⟨w, []⟩ pre).got[j]? = some c)
+    (hpost : ∀ i f, HOp.mutateCopy i f ∈ post → i ≠ (hrun rt ⟨w, []⟩ pre).got.length) :
+    (hrun rt ⟨w, []⟩ (pre ++ .pickle (some j) :: post)).got[(hrun rt ⟨w, []⟩ pre).got.length]? =
+      some (trip rt c) := by
+  rw [hrun_append, copy_general rt _ (some j) c post hc hpost]
+
+/-- the `keep_wrapper` rule at every pickling of a history, for a wrapper made by
+`wrap_non_picklable_objects(obj, keep)`: the k-th copy is `rt (state at the k-th pickling)` itself if
+`¬ keep`, else a fresh wrapper of it with the same flag -/
+theorem history_keep_rule (rt : Obj → Obj) (o : Obj) (keep : Bool) (pre post : List HOp)
+    (hpost : ∀ j f, HOp.mutateCopy j f ∈ post → j ≠ (hrun rt ⟨wrapObj (.raw o) keep, []⟩ pre).got.length) :
+    (hrun rt ⟨wrapObj (.raw o) keep, []⟩ (pre ++ .pickle none :: post)).got[
+        (hrun rt ⟨wrapObj (.raw o) keep, []⟩ pre).got.length]? =
+      some (if keep then wrapObj (.raw (rt (liveMut pre o))) keep else .raw (rt (liveMut pre o))) := by
+  rw [history_copy rt _ pre post hpost]
+  cases keep <;> rfl
+
+/-- … and for an instance made through a wrapped class -/
+theorem history_keep_rule_class {α : Type} (rt : Obj → Obj) (ctor : α → Obj) (dc keep : Bool) (args : α)
+    (pre post : List HOp)
+    (hpost : ∀ j f, HOp.mutateCopy j f ∈ post →
+      j ≠ (hrun rt ⟨wrapClass (fun a => .raw (ctor a)) dc keep args, []⟩ pre).got.length) :
+    (hrun rt ⟨wrapClass (fun a => .raw (ctor a)) dc keep args, []⟩ (pre ++ .pickle none :: post)).got[
+        (hrun rt ⟨wrapClass (fun a => .raw (ctor a)) dc keep args, []⟩ pre).got.length]? =
+      some (if keep then wrapObj (.raw (rt (liveMut pre (ctor args)))) keep
+            else .raw (rt (liveMut pre (ctor args)))) := by
+  rw [history_copy rt _ pre post hpost]
+  cases keep <;> rfl
+
+/-- `history_behaviour` — main statement for histories: given a behaviour-preserving cloudpickle, the
+copy received from the pickling after `pre` behaves (callable iff, call results, attribute reads)
+like the ORIGINAL OBJECT IN THE STATE IT HAD AT THAT PICKLING, exactly the `keep_wrapper=True` layers
+of the stack arrive and every one of them has its flag set — for every stack, both flag values, every
+history before and every continuation after (more picklings, more state changes). -/
+theorem history_behaviour (rt : Obj → Obj) (hf : Faithful rt) (w : Val) (hw : Regular w)
+    (pre post : List HOp) (hs : StableOps pre)
+    (hpost : ∀ j f, HOp.mutateCopy j f ∈ post → j ≠ (hrun rt ⟨w, []⟩ pre).got.length) :
+    ∃ c, (hrun rt ⟨w, []⟩ (pre ++ .pickle none :: post)).got[(hrun rt ⟨w, []⟩ pre).got.length]? = some c ∧
+      SameBeh c (.raw (liveMut pre (core w))) ∧ depth c = keptLayers w ∧ allKeep c = true := by
+  refine ⟨_, history_copy rt w pre post hpost, ?_, ?_, ?_⟩
+  · have h := behaviour_preserved rt hf _ (regular_mapCore _ (liveMut_callStable pre hs) w hw) 1
+    rwa [core_mapCore] at h
+  · rw [depth_trip, keptLayers_mapCore]
+  · exact allKeep_trip rt _
+
+/-- non-vacuity: a callable object whose attribute `u:0` and call result change between two
+picklings of the same wrapper; the first copy shows the old state, the second the new one, the live
+wrapper the new one, with `keep_wrapper` true and false; the hypotheses of `history_behaviour` hold -/
+example (keep : Bool) :
+    let o : Obj := ⟨true, fun a => if a = .user 0 then some 1 else none, fun _ => 10, 0⟩
+    let upd : Obj → Obj := fun o => { o with attr := fun a => if a = .user 0 then some 2 else o.attr a, call := fun _ => 20 }
+    let rt : Obj → Obj := fun o => { o with gen := o.gen + 1 }
+    let s := hrun rt ⟨wrapObj (.raw o) keep, []⟩ [.pickle none, .mutate upd, .pickle none, .mutate upd]
+    s.got.map (callV · 0) = [some 10, some 20] ∧ callV s.live 0 = some 20 ∧
+    s.got.map (fun c => (getattr c (.user 0)).isSome) = [true, true] ∧
+    s.got.map depth = (if keep then [1, 1] else [0, 0]) ∧
+    StableOps [.pickle none, .mutate upd] ∧ Regular (wrapObj (.raw o) keep) := by
+  cases keep <;> exact ⟨rfl, rfl, rfl, rfl, ⟨fun _ => rfl, trivial⟩, ⟨rfl, trivial⟩⟩
+
 end LokyModel.Wrapper
